@@ -571,17 +571,47 @@ func excLookupE(m map[string]excEntry, key string) (excEntry, bool) {
 	if e, ok := m[key]; ok {
 		return e, true
 	}
-	nk := eraseNames(key)
-	best := ""
-	for k := range m {
-		if eraseNames(k) == nk && (best == "" || k < best) {
-			best = k
+	for _, norm := range []func(string) string{eraseNames, eraseNamesAndPrivateFields} {
+		nk := norm(key)
+		best := ""
+		for k := range m {
+			if norm(k) == nk && (best == "" || k < best) {
+				best = k
+			}
+		}
+		if best != "" {
+			return m[best], true
 		}
 	}
-	if best != "" {
-		return m[best], true
-	}
 	return excEntry{}, false
+}
+
+var rePrivField = regexp.MustCompile(`\.[a-z][A-Za-z0-9_]*`)
+
+// eraseNamesAndPrivateFields additionally erases unexported field names (".sizeBytes" -> "._"): a
+// rename of an unexported struct field is as harmless as a rename of a local. Function and package
+// names (followed by '(' or '.') are kept.
+func eraseNamesAndPrivateFields(key string) string {
+	key = eraseNames(key)
+	idx := rePrivField.FindAllStringIndex(key, -1)
+	var b strings.Builder
+	last := 0
+	for _, m := range idx {
+		s, e := m[0], m[1]
+		var next byte
+		if e < len(key) {
+			next = key[e]
+		}
+		b.WriteString(key[last:s])
+		last = e
+		if next == '(' || next == '.' || next == '/' {
+			b.WriteString(key[s:e])
+			continue
+		}
+		b.WriteString("._")
+	}
+	b.WriteString(key[last:])
+	return b.String()
 }
 
 func excLookupS(m map[string]string, key string) (string, bool) {
